@@ -9,14 +9,20 @@ ID = 'C01'
 LEAN_TARGETS = ['TexSoupProofs.Properties.C01', 'TexSoupProofs.Properties.C02Strings', 'TexSoupProofs.Properties.C13Positions']
 THEOREMS = ['TexSoup.C01.roundtrip', 'TexSoup.C01.roundtrip_tolerant', 'TexSoup.C01.node_text_is_its_tokens',
             'TexSoup.C02.document_parses', 'TexSoup.C02.document_roundtrip', 'TexSoup.C13.node_first_char']
-PARTIAL = ['that every grammar document parses is token-level completeness (Properties/C02.lean, in progress) plus the '
-           'tokenizer inverse: explored by this check']
+PARTIAL = ['"parsing succeeds" is proved for the documents of the Lean grammar (C02.document_parses / document_roundtrip: '
+           'token-level completeness composed with the tokenizer inverse); that gen_doc.py (the Python description of '
+           '"well-formed document") only emits documents of that grammar is not proved but compared on every run; '
+           'restrictions of the proved grammar: single-token environment names, no continuation arguments after a '
+           'fixed-signature command']
 TRUSTED = ['harness/gen_doc.py (grammar of documented constructs, renderer with source spans, frame conditions)',
            'correspondence harness (props/c01.py, lib_doc.py, common.py)']
 ASSUMPTIONS = ['CPython str semantics', 'the model driver is the compiled form of the verified definitions',
                'well-formed = derivable from gen_doc\'s grammar with adjacent argument groups; excluded on purpose: '
                'verbatim inside items/groups/math, `$a$$b$`, blank-padded environment names, `\\begin[a]`, an '
                'environment body starting with (blanks +) an opener']
+LEAN_TARGETS = LEAN_TARGETS + ['TexSoupProofs.Properties.TableSpec']
+# entries of the generated tables that the property's statement names (they stop compiling when a table edit drops them)
+THEOREMS = THEOREMS + ['TexSoup.TableSpec.' + n for n in ['builtin_verbatim_names', 'definition_commands']]
 
 _CACHE = {}
 
